@@ -154,7 +154,7 @@ def hyp_settings(max_examples, shrink=True, stateful_steps=None):
     return settings(**kw)
 
 
-def drive(ctx, strategy, body, max_examples, shrink=True, tag=""):
+def drive(ctx, strategy, body, max_examples, shrink=True, tag="", count=True):
     """Run ``body(case)`` over ``strategy`` under Hypothesis with the shard's seed.
     An unlisted failure is shrunk (if ``shrink``) and recorded in ctx.violations; the exploration of this
     sub-check then stops (Hypothesis stops at the first failure)."""
@@ -172,7 +172,8 @@ def drive(ctx, strategy, body, max_examples, shrink=True, tag=""):
         calls[0] += 1
         if calls[0] == 1 and ctx.shard > 0 and ctx._last_violation is None:
             return   # Hypothesis always starts with the all-simplest example: run it in shard 0 only, not 16 times
-        ctx.count()
+        if count:
+            ctx.count()
         body(case)
 
     try:
